@@ -12,7 +12,7 @@ from .ops import _ops_units
 _ops_units("C05", "C05")
 
 
-@unit("C05.guards", "C05", "ngo.normalize:remove_unecessary_bounds.<locals>.replace")
+@unit("C05.guards", "C05", "ngo.normalize:remove_unecessary_bounds.<locals>.replace", fallback={"mirror": "corpus", "trait": "none"})
 def guards(ctx):
     """dropping #inf/#sup guards and moving a lone right guard to the left keeps the truth value of the
     guards for every aggregate value and every variable assignment; nothing else of the aggregate changes"""
